@@ -411,6 +411,10 @@ def run_race(case):
                     if label == "insider" and res != "admitted":
                         stats["insider_refused"] += 1
 
+                # CPython's adaptive interpreter reports fewer opcode events while the code is cold: warm the two functions up
+                # under the tracer first so that every counted schedule sees the same (full) set of scheduling points
+                for _ in range(3):
+                    threadmc.explore(make_threads_for(target, label), 0, lambda r: None, opcodes=opcodes)
                 threadmc.explore(make_threads_for(target, label), bound, on_run, opcodes=opcodes)
     finally:
         from nostr_relay.storage import get_storage as real_get
